@@ -13,6 +13,33 @@ CLAIMED = {
    note="Trusts the stub timerfd/epoll semantics (notes/kernel_facts.txt: re-arm clears the expiration count, one-shot relative timers). The virtual clock never jumps backwards."),
 }
 
+CLAIMED.update({
+ "C01": dict(
+   technique="deterministic simulation: seeded schedule/fault search on a stub kernel, operation ledger",
+   text="Seeded search over mixes of every object kind sharing one IO (dialed/accepted conns, AsyncAdapter, FIFO ends, regular file, listener, packet conn, multicast peer) with an operation ledger: "
+        "every completion callback is counted at entry (never twice, never after Close returned), Cancel must complete each deferred operation once with ErrCancelled, and at quiescence "
+        "(faults off, peers satisfy every pending operation, loop polled) every operation on a never-closed object must have completed. Handlers cancel/close/re-arm themselves and other objects, "
+        "including ones later in the same epoll batch; batches are composed, permuted and truncated by the tape; peers send, half-close, close, reset and hang up. Directed: all ordered pairs of 7 object kinds x 3 cross-object actions x 2 batch orders.",
+   note="At most one read and one write in flight per object (sonic has one reactor per direction). Stub kernel semantics for epoll/pipe/TCP/UDP as in notes/kernel_facts.txt. Regular files are not started at the dispatch limit while the C14 known finding is open."),
+ "C02": dict(
+   technique="deterministic simulation: seeded segmentation/partial-transfer search with a position-dependent byte generator",
+   text="Stream objects (dialed, accepted, AsyncAdapter) against raw actor peers, both directions at once; socket buffer capacities drawn down to 1 byte, deliveries segmented, kernel short reads/writes, delays, peer FIN/close/RST in the middle of *All operations. "
+        "Oracle: per-direction offset ledger with a position-dependent generator (any slice identifies its own offset): delivered bytes equal what the peer wrote at that offset, counts equal the bytes the stub kernel moved for that operation, "
+        "*All success implies the full length, on error n <= bytes moved, no error on a healthy stream, the peer verifies every byte it receives, conservation at quiescence.",
+   note="The kernel's per-descriptor byte counters are the independent observer. AsyncAdapter's peer always drains (net.Conn.Write blocks the loop by design)."),
+ "C03": dict(
+   technique="deterministic simulation: seeded history search with an in-flight ledger, RunPending under a quiescence detector",
+   text="Histories of start/complete/cancel/close/timer arm+disarm/post over mixed objects with registrations that fail (injected epoll_ctl error, descriptor closed underneath) and EINTR in blocking waits. "
+        "At every top-level point Pending() and Posted() must equal the ledger; RunPending is called at tape-chosen moments after actors have been scheduled to satisfy everything in flight: returning early is caught by the ledger, "
+        "never returning by the world going quiescent with the driver blocked in epoll_wait(-1); PollOne must report n>0 when a handler ran and ErrTimeout when the stub kernel had nothing ready; no wait returns EINTR as an error.",
+   note="EINTR is injected only where Linux can deliver it (a wait that would sleep). Posting from posted handlers is exercised under C05."),
+ "C14": dict(
+   technique="deterministic simulation: chains of immediately completable operations with a nesting counter",
+   text="Chains (up to 10x the limit, hopping between objects) of operations that complete immediately on conns, FIFO ends, regular file, listener with queued connections, packet conn and multicast peer with queued datagrams. "
+        "The harness's own nesting counter must never exceed MaxCallbackDispatch+1, an operation started at the bound must be deferred and then complete with the data/connection it would have had inline, IO.Dispatched must be 0 whenever the stack is unwound.",
+   note="No Cancel in these workloads. Regular files: open known finding (cannot be deferred through epoll)."),
+})
+
 NOT_YET = {
 }
 
